@@ -182,28 +182,31 @@ Definition do_drop (k : coll) (w : world) : coll * world :=
 Definition finish_op (w : world) : list event :=
   rev (match nalloc w with O => log w | n => EAlloc n :: log w end).
 
-Definition step_op (s : state) (o : op) : state * list event :=
-  match st_coll s with
-  | CDead => (s, [])
-  | k =>
-      let inj := match o with OPoll _ i => i | _ => no_inj end in
-      let w := begin_op inj (st_world s) in
-      let '(k', w') :=
-        match o with
-        | OBuild t p inits ups => match k with CNone => build t p inits ups w | _ => (k, w) end
-        | OPush c sc => do_push false false c sc k w
-        | OPushF c sc => do_push false true c sc k w
-        | OTryPush c sc => do_push true false c sc k w
-        | OTryPushF c sc => do_push true true c sc k w
-        | OPoll t _ => do_poll t k w
-        | OEnv a => (k, do_act None a w)
-        | OObs => (k, match observe k with Some o => emit (EObs o) w | None => w end)
-        | OMove => (k, w)
-        | ODropColl => do_drop k w
-        | OCleanup => (k, cleanup w)
-        end in
-      ({| st_coll := k'; st_world := w' |}, finish_op w')
+Definition step_core (k : coll) (o : op) (w : world) : coll * world :=
+  match o with
+  | OBuild t p inits ups => match k with CNone => build t p inits ups w | _ => (k, w) end
+  | OPush c sc => do_push false false c sc k w
+  | OPushF c sc => do_push false true c sc k w
+  | OTryPush c sc => do_push true false c sc k w
+  | OTryPushF c sc => do_push true true c sc k w
+  | OPoll t _ => do_poll t k w
+  | OEnv a => (k, do_act None a w)
+  | OObs => (k, match observe k with Some o => emit (EObs o) w | None => w end)
+  | OMove => (k, w)
+  | ODropColl => do_drop k w
+  | OCleanup => (k, cleanup w)
   end.
+
+Definition op_inj (o : op) : injection := match o with OPoll _ i => i | _ => no_inj end.
+
+Definition is_dead (k : coll) : bool := match k with CDead => true | _ => false end.
+
+Definition step_op (s : state) (o : op) : state * list event :=
+  if is_dead (st_coll s) then (s, [])
+  else
+    let w := begin_op (op_inj o) (st_world s) in
+    let '(k', w') := step_core (st_coll s) o w in
+    ({| st_coll := k'; st_world := w' |}, finish_op w').
 
 Fixpoint run (s : state) (ops : list op) : list (list event) :=
   match ops with
